@@ -550,8 +550,10 @@ def correspond(rep, name, cases, theorem, compare_model=True, impl_timeout=900):
         for _, text, _ in cases:
             f.write(text + "\n")
     try:
-        impl = run_impl(path, timeout=impl_timeout)
-        model, spec, orc = run_model(path, impl=impl)
+        # the thorough tiers run millions of real-thread schedules: give both sides the time
+        lim = impl_timeout if rep.tier == "quick" else max(impl_timeout, 2700)
+        impl = run_impl(path, timeout=lim)
+        model, spec, orc = run_model(path, impl=impl, timeout=lim)
     except CheckFailure as e:
         rep.violations.append(("correspondence cannot be established: " + e.what,
                                {"obligation": e.what, "detail": e.detail, "failing_input_found": False}))
